@@ -605,19 +605,31 @@ fn build_empty_stco() -> Vec<u8> {
 fn build_hvcc_fmp4(config: &FragmentConfig) -> Vec<u8> {
     let num_arrays: u8 = if config.vps.is_some() { 3 } else { 2 };
 
+    // general_profile_space / tier / profile_idc and general_level_idc live at fixed byte
+    // positions of the SPS NAL unit (2-byte NAL header, 1 byte vps_id/sub_layers, then
+    // profile_tier_level); same derivation as the progressive muxer.
+    let hevc = crate::codec::h265::HevcConfig::new(
+        config.vps.clone().unwrap_or_default(),
+        config.sps.clone(),
+        config.pps.clone(),
+    );
+    let byte1 = (hevc.general_profile_space() << 6)
+        | (if hevc.general_tier_flag() { 0x20 } else { 0 })
+        | (hevc.general_profile_idc() & 0x1f);
+
     let mut payload = vec![
-        1, // configuration_version
-        0, // general_profile_space (2 bits), general_tier_flag (1 bit), general_profile_idc (5 bits) - using defaults
-        0, 0, 0, 0, // general_profile_compatibility_flags
-        0, 0, 0, 0, 0, 0, // general_constraint_indicator_flags
-        0, // general_level_idc - using default
-        0, 0, // min_spatial_segmentation_idc
-        0, // parallelismType
-        0, // chromaFormat
-        0, // bitDepthLumaMinus8
-        0, // bitDepthChromaMinus8
-        0, 0,          // avgFrameRate
-        0x07, // constantFrameRate=0, numTemporalLayers=0, temporalIdNested=1, lengthSizeMinusOne=3 (4-byte lengths)
+        1,     // configuration_version
+        byte1, // general_profile_space (2), general_tier_flag (1), general_profile_idc (5)
+        0x60, 0x00, 0x00, 0x00, // general_profile_compatibility_flags (Main)
+        0x90, 0x00, 0x00, 0x00, 0x00, 0x00, // general_constraint_indicator_flags
+        hevc.general_level_idc(), // general_level_idc
+        0xf0, 0x00, // reserved '1111' + min_spatial_segmentation_idc (12)
+        0xfc, // reserved '111111' + parallelismType (2)
+        0xfd, // reserved '111111' + chromaFormat (2) = 4:2:0
+        0xf8, // reserved '11111' + bitDepthLumaMinus8 (3)
+        0xf8, // reserved '11111' + bitDepthChromaMinus8 (3)
+        0x00, 0x00, // avgFrameRate
+        0x03, // constantFrameRate=0, numTemporalLayers=0, temporalIdNested=0, lengthSizeMinusOne=3
         num_arrays, // numOfArrays
     ];
 
